@@ -7,6 +7,14 @@ def run(req):
     a = req.get("args", {})
     if fn in ("trajgrad.trap_grad", "trajgrad.min_trap_grad"):
         return _trap(fn, a)
+    if fn == "alg.loop":
+        return _loop(a)
+    if fn == "alg.power":
+        return _power(a)
+    if fn == "alg.earlystop":
+        return _earlystop(a)
+    if fn == "alg.gs_counter":
+        return _gs_counter(a)
     if fn == "alg.gm":
         return _gm(a)
     if fn == "alg.pdhg":
@@ -353,3 +361,169 @@ def _pdhg(a):
     if not bad and err > float(a.get("tol", 1e-3)):
         bad.append("did not converge to the minimiser: relative error %g after %d updates" % (err, k))
     return dict(reproduced=bool(bad), detail="; ".join(bad) or "all clauses hold", updates=k)
+
+
+# ----------------------------------------------------------------------------- C15 stopping
+def _earlystop(a):
+    import sigpy as sp
+    kind = a["scenario"]
+    if kind == "gm_accelerated_box":
+        x = np.array([float(a.get("x0", -100.0))])
+        alg = sp.alg.GradientMethod(lambda z: z - 0.99, x, float(a.get("alpha", 0.01)), proxg=lambda al, v: np.minimum(v, 1.0),
+                                    accelerate=bool(a.get("accelerate", True)), max_iter=10000, tol=0)
+    elif kind == "gm_plain_box":
+        x = np.array([-100.0])
+        alg = sp.alg.GradientMethod(lambda z: z - 0.99, x, 0.01, proxg=lambda al, v: np.minimum(v, 1.0), accelerate=False, max_iter=3000, tol=0)
+    elif kind == "pdhg_l1_zero_init":
+        rs = np.random.RandomState(0)
+        A = rs.standard_normal((6, 4))
+        y = rs.standard_normal(6)
+        lam = 0.1
+        x, u = np.zeros(4), np.zeros(6)
+        sig = float(a.get("sigma", 0.01))
+        alg = sp.alg.PrimalDualHybridGradient(lambda s, v: (v - s * y) / (1 + s),
+                                              lambda t, v: np.sign(v) * np.maximum(np.abs(v) - t * lam, 0),
+                                              lambda v: A @ v, lambda v: A.T @ v, x, u, 0.05, sig, max_iter=5000, tol=0)
+    elif kind == "cg_exact":
+        A = np.diag([1.0, 2.0, 3.0])
+        b = np.array([1.0, 2.0, 3.0])
+        x = np.zeros(3)
+        alg = sp.alg.ConjugateGradient(lambda v: A @ v, b, x, max_iter=50, tol=0)
+    else:
+        return dict(reproduced=False, detail="unknown scenario")
+    k = 0
+    while not alg.done():
+        alg.update()
+        k += 1
+    if alg.iter >= alg.max_iter:
+        return dict(reproduced=False, detail="ran to max_iter (%d updates)" % k)
+    before = np.array(alg.x, copy=True)
+    more = int(a.get("further_updates", 1))
+    moved, j = 0.0, 0
+    with np.errstate(all="ignore"):
+        for j in range(1, more + 1):
+            alg.update()
+            after = np.array(alg.x, copy=True)
+            if not np.all(np.isfinite(after)):
+                return dict(reproduced=False, detail="further update after an exact solve is degenerate (0/0); x reached the solution", updates=k)
+            moved = float(np.max(np.abs(after - before)))
+            if moved > 1e-9:
+                break
+    return dict(reproduced=moved > 1e-9, updates=k,
+                detail="stopped with tol=0 after %d of %d updates at x=%s although the state was not a fixed point: %d further update(s) move x by %g" % (
+                    k, alg.max_iter, np.round(before, 6).tolist(), j, moved)
+                if moved > 1e-9 else "stopped after %d updates at a fixed point" % k)
+
+
+def _gs_counter(a):
+    import sigpy as sp
+    rs = np.random.RandomState(0)
+    n = 6
+    A = sp.linop.MatMul([n, 1], rs.standard_normal((8, n)) + 1j * rs.standard_normal((8, n)))
+    xt = rs.standard_normal((n, 1)) + 1j * rs.standard_normal((n, 1))
+    y = np.abs(A * xt)
+    mi = int(a.get("max_iter", 6))
+    alg = sp.alg.GerchbergSaxton(A, y, np.ones((n, 1), dtype=complex), max_iter=mi, tol=-1)
+    k = 0
+    while not alg.done():
+        alg.update()
+        k += 1
+    bad = []
+    if k != mi:
+        bad.append("performed %d updates for max_iter=%d with tol unreachable" % (k, mi))
+    if alg.iter != k:
+        bad.append("iteration counter is %d after %d updates" % (alg.iter, k))
+    return dict(reproduced=bool(bad), detail="; ".join(bad) or "counter advances by one per update")
+
+
+def _mk_alg(name, max_iter, rs):
+    import sigpy as sp
+    n = 4
+    M = rs.standard_normal((n, n))
+    A = M @ M.T + np.eye(n)
+    b = rs.standard_normal(n)
+    x = np.zeros(n)
+    if name == "PowerMethod":
+        return sp.alg.PowerMethod(lambda v: A @ v, rs.standard_normal(n), max_iter=max_iter), A
+    if name == "GradientMethod":
+        return sp.alg.GradientMethod(lambda v: A @ v - b, x, 1 / np.linalg.norm(A, 2), max_iter=max_iter, tol=0), A
+    if name == "GradientMethodAcc":
+        return sp.alg.GradientMethod(lambda v: A @ v - b, x, 1 / np.linalg.norm(A, 2), accelerate=True, max_iter=max_iter, tol=0), A
+    if name == "ConjugateGradient":
+        return sp.alg.ConjugateGradient(lambda v: A @ v, b, x, max_iter=max_iter, tol=0), A
+    if name == "PrimalDualHybridGradient":
+        return sp.alg.PrimalDualHybridGradient(lambda s, v: (v - s * b) / (1 + s), lambda t, v: v, lambda v: A @ v, lambda v: A.T @ v,
+                                               x, np.zeros(n), 0.1, 0.1, max_iter=max_iter, tol=0), A
+    if name == "AltMin":
+        st = {"k": 0}
+        return sp.alg.AltMin(lambda: st.__setitem__("k", st["k"] + 1), lambda: None, max_iter=max_iter), A
+    if name == "ADMM":
+        z, u = np.zeros(n), np.zeros(n)
+        def mx():
+            x[:] = np.linalg.solve(A + np.eye(n), b + z - u)
+        def mz():
+            z[:] = x + u
+        return sp.alg.ADMM(mx, mz, x, z, u, lambda v: v, lambda v: -v, 0, max_iter=max_iter), A
+    if name == "AugmentedLagrangianMethod":
+        u, v = np.zeros(1), np.zeros(1)
+        def minL():
+            x[:] = np.linalg.solve(A, b)
+        return sp.alg.AugmentedLagrangianMethod(minL, None, lambda xx: np.array([xx[0]]), x, u, v, 1.0, max_iter=max_iter), A
+    if name == "NewtonsMethod":
+        Ai = np.linalg.inv(A)
+        return sp.alg.NewtonsMethod(lambda v: A @ v - b, lambda v: (lambda g: Ai @ g), x, max_iter=max_iter, tol=0), A
+    if name == "GerchbergSaxton":
+        Aop = sp.linop.MatMul([n, 1], M + 0j)
+        y = np.abs(Aop * (rs.standard_normal((n, 1)) + 0j))
+        return sp.alg.GerchbergSaxton(Aop, y, np.ones((n, 1), dtype=complex), max_iter=max_iter, tol=-1), A
+    raise ValueError(name)
+
+
+def _loop(a):
+    rs = np.random.RandomState(int(a.get("seed", 0)))
+    name, mi, pattern = a["cls"], int(a["max_iter"]), a.get("pattern", "canonical")
+    alg, A = _mk_alg(name, mi, rs)
+    bad = []
+    k = 0
+    last_iter = alg.iter
+    for step in range(mi + 3):
+        d = alg.done()
+        if pattern == "double_done":
+            d = alg.done() and d
+        if d:
+            break
+        with np.errstate(all="ignore"):
+            alg.update()
+        k += 1
+        if alg.iter != last_iter + 1:
+            bad.append("counter went %d -> %d on update %d" % (last_iter, alg.iter, k))
+            break
+        last_iter = alg.iter
+    if k > mi:
+        bad.append("%d updates for max_iter=%d" % (k, mi))
+    if name in ("AltMin", "ADMM", "AugmentedLagrangianMethod", "PowerMethod", "GerchbergSaxton") and k != mi:
+        bad.append("counter-only stopping performed %d updates for max_iter=%d" % (k, mi))
+    return dict(reproduced=bool(bad), detail="; ".join(bad) or "ok", updates=k)
+
+
+def _power(a):
+    import sigpy as sp
+    rs = np.random.RandomState(int(a.get("seed", 0)))
+    n, cplx = int(a["n"]), bool(a["complex"])
+    M = rs.standard_normal((n, n)) + (1j * rs.standard_normal((n, n)) if cplx else 0)
+    A = M @ M.conj().T
+    lam = float(np.max(np.linalg.eigvalsh(A)))
+    x = (rs.standard_normal(n) + (1j * rs.standard_normal(n) if cplx else 0)).astype(A.dtype)
+    alg = sp.alg.PowerMethod(lambda v: A @ v, x, max_iter=40)
+    est = []
+    while not alg.done():
+        alg.update()
+        est.append(alg.max_eig)
+    bad = []
+    for i in range(2, len(est)):
+        if est[i] < est[i - 1] * (1 - 1e-12):
+            bad.append("estimate decreased at update %d: %g -> %g" % (i + 1, est[i - 1], est[i]))
+            break
+    if max(est[1:]) > lam * (1 + 1e-10):
+        bad.append("estimate %g exceeds the largest eigenvalue %g" % (max(est[1:]), lam))
+    return dict(reproduced=bool(bad), detail="; ".join(bad) or "ok")
